@@ -302,17 +302,26 @@ class Elab:
         fault = f["model"] == "fault"
         tag = f.get("tag", "") or f["model"]
         ti = self.tag_index(tag)
-        if self.spherical:
-            self.unsupported = "slab/fault in a spherical world"
-            return None
         self.has_lines = True
         secs = mlist(["{se_coord=%s; se_segments=%s; se_models=%s}" % (natlit(sc["coordinate"]), mlist([self.line_segment(sg, fault) for sg in sc["segments"]]),
                                                                        self.line_models(sc, fault)) for sc in f.get("sections", [])])
         layout = "{ly_n=%s; ly_models=%s; ly_default=%s; ly_sections=%s}" % (
             natlit(len(f["coordinates"])), self.line_models(f, fault), mlist([self.line_segment(sg, fault) for sg in f["segments"]]), secs)
-        lt = "(line_of_layout %s %s %s %s %s %s %s)" % (
-            "true" if fault else "false", mlist([mpt(c) for c in self.coords(f["coordinates"])]), mpt((float(f["dip point"][0]), float(f["dip point"][1]))),
-            ml(f.get("min depth", 0.0)), ml(f.get("max depth", DMAX)), layout, ml(float(ti)))
+        if self.spherical:
+            dmn = {"starting point": "DMStartingPoint", "begin segment": "DMBeginSegment", "begin at end segment": "DMBeginAtEndSegment"}.get(
+                self.wj.get("coordinate system", {}).get("depth method"))
+            if dmn is None:
+                self.unsupported = "spherical depth method"
+                dmn = "DMNone"
+            # the dip point is converted with  p *= (PI/180.)  (the coordinates with  p * PI / 180.0)
+            dip = (float(f["dip point"][0]) * (PI / 180.), float(f["dip point"][1]) * (PI / 180.))
+            lt = "(line_of_layout_gen %s true %s %s %s %s %s %s %s)" % (
+                "true" if fault else "false", dmn, mlist([mpt(c) for c in self.coords(f["coordinates"])]), mpt(dip),
+                ml(f.get("min depth", 0.0)), ml(f.get("max depth", DMAX)), layout, ml(float(ti)))
+        else:
+            lt = "(line_of_layout %s %s %s %s %s %s %s)" % (
+                "true" if fault else "false", mlist([mpt(c) for c in self.coords(f["coordinates"])]), mpt((float(f["dip point"][0]), float(f["dip point"][1]))),
+                ml(f.get("min depth", 0.0)), ml(f.get("max depth", DMAX)), layout, ml(float(ti)))
         self.line_terms[f.get("name", str(idx))] = lt
         return "line_to_feature n g " + lt
 
@@ -884,7 +893,7 @@ class Gen:
             spherical = r.random() < 0.4
         w = {"version": "1.1"}
         if spherical:
-            w["coordinate system"] = {"model": "spherical", "depth method": "begin segment"}
+            w["coordinate system"] = {"model": "spherical", "depth method": r.choice(["begin segment", "begin segment", "starting point", "begin at end segment"])}
         elif r.random() < 0.3:
             w["coordinate system"] = {"model": "cartesian"}
         if cross is None:
